@@ -36,6 +36,7 @@ import (
 	"time"
 
 	"github.com/robinbraemer/event"
+	"go.minekube.com/common/minecraft/component"
 	jconfig "go.minekube.com/gate/pkg/edition/java/config"
 	"go.minekube.com/gate/pkg/edition/java/proto/packet"
 	"go.minekube.com/gate/pkg/edition/java/proxy"
@@ -64,7 +65,7 @@ func settleWatchdog() time.Duration {
 // ---------------------------------------------------------------------------------------
 // generator
 
-var allModes = []string{mAccept, mAccept, mSlowAccept, mSlowDial, mSlowDial, mRefuse, mKickLogin, mKickConfig, mKickPlay, mKickPlayLate, mHang, mHang, mStallJoin, mStallJoin, mCloseLogin, mCloseHS}
+var allModes = []string{mAccept, mAccept, mSlowAccept, mSlowDial, mSlowDial, mRefuse, mKickLogin, mKickConfig, mKickPlay, mKickPlay, mKickPlayLate, mKickPlayLate, mHang, mHang, mStallJoin, mStallJoin, mCloseLogin, mCloseHS}
 
 func pick[T any](rng *rand.Rand, xs ...T) T { return xs[rng.Intn(len(xs))] }
 
@@ -78,12 +79,29 @@ func genScenario(rng *rand.Rand, id int) Scenario {
 			s.LoginDelayMs = pick(rng, 10, 25)
 		case mKickPlayLate:
 			s.KickDelayMs = pick(rng, 2, 5)
+			s.KickKeepOpen = rng.Intn(2) == 0
+		case mKickPlay, mKickConfig:
+			s.KickKeepOpen = rng.Intn(2) == 0
 		case mSlowDial:
 			s.DialDelayMs = pick(rng, 8, 20)
 		}
 		sc.Scripts[n] = s
 	}
 	// scripts that only end when the context passed to Connect ends
+	// What a KickedFromServerEvent subscriber decides when the CURRENT server kicked the
+	// player (sequential rounds only, see below). For "redirect-same" the kicking servers
+	// accept from their second connection on, else the player would go round in circles.
+	if rng.Intn(100) < 40 {
+		sc.KickResult = pick(rng, "redirect-other", "redirect-same", "redirect-same", "notify", "disconnect")
+		if sc.KickResult == "redirect-same" {
+			for _, n := range []string{"s1", "s2", "s3"} {
+				if sc2 := sc.Scripts[n]; kickish(sc2.Mode) {
+					sc2.Later = mAccept
+					sc.Scripts[n] = sc2
+				}
+			}
+		}
+	}
 	hangs := func(n string) bool { m := sc.Scripts[n].Mode; return m == mHang || m == mStallJoin }
 	// try list: never a hanging server (a fallback to it would only be ended by the proxy's
 	// own 5 s connection timeout) and never a server that throws established players out:
@@ -103,7 +121,9 @@ func genScenario(rng *rand.Rand, id int) Scenario {
 			// connection timeout, shortened for this scenario
 			sc.ConnTimeoutMs = 300
 		}
-		if sc.Scripts[first].Mode != mHang && sc.Scripts[first].Mode != mSlowAccept {
+		// (a server that kicks after the join would also be the fallback of every later
+		// kick: kick storm, see the try list above)
+		if m := sc.Scripts[first].Mode; m != mHang && m != mSlowAccept && m != mKickPlay && m != mKickPlayLate {
 			sc.Initial = first
 			if rng.Intn(100) < 40 {
 				sc.Try = []string{first}
@@ -142,10 +162,36 @@ func genScenario(rng *rand.Rand, id int) Scenario {
 				reqs = []ReqSpec{a, b, c}
 			}
 		}
+		if reqs == nil && rng.Intn(100) < 25 {
+			// stale-handle pattern: a request handle that was created while the player was
+			// on another server than the one it is on when the handle is finally used
+			// (prepared up front, or created before another request of the round moved the
+			// player); the switch must close whatever server the player is on THEN
+			var hs []string
+			for _, n := range serverNames {
+				if healthy(sc.Scripts[n].Mode) && sc.Scripts[n].Later == "" {
+					hs = append(hs, n)
+				}
+			}
+			if len(hs) >= 3 {
+				rng.Shuffle(len(hs), func(i, j int) { hs[i], hs[j] = hs[j], hs[i] })
+				a := mkReq(hs[0], 0)
+				b := mkReq(hs[1], pick(rng, 8000, 15000, 25000))
+				b.Handle = pick(rng, "round", "round", "login")
+				reqs = []ReqSpec{a, b}
+				if rng.Intn(2) == 0 {
+					c := mkReq(hs[2], pick(rng, 30000, 40000))
+					c.Handle = pick(rng, "round", "login")
+					reqs = append(reqs, c)
+				}
+			}
+		}
 		if reqs == nil {
 			k := pick(rng, 1, 2, 2, 3, 3, 4)
 			for i := 0; i < k; i++ {
-				reqs = append(reqs, mkReq(pick(rng, serverNames...), pick(rng, 0, 0, 0, 100, 500, 2000, 8000, 20000)))
+				q := mkReq(pick(rng, serverNames...), pick(rng, 0, 0, 0, 100, 500, 2000, 8000, 20000))
+				q.Handle = pick(rng, "", "", "", "round", "login")
+				reqs = append(reqs, q)
 			}
 		}
 		// A backend that throws the player out of an established (kick after JoinGame) or
@@ -186,7 +232,17 @@ type exec struct {
 	nextReq int
 	rng     *rand.Rand
 	// requests that have returned (a stalled backend goes on only after that)
-	returned map[int]bool
+	returned       map[int]bool
+	posts          []PostObs
+	postsDiscarded int
+	closing        bool                      // the harness is about to close the client
+	connectedSeen  map[string]bool           // "server#n": ServerConnectedEvent fired for this connection
+	handles        map[[2]int]preparedHandle // (round, index) -> handle created right after the login
+}
+
+type preparedHandle struct {
+	req proxy.ConnectionRequest
+	cur string
 }
 
 func (x *exec) markReturned(id int) {
@@ -247,9 +303,115 @@ func toE2E(mode string) e2e.Mode {
 	panic("mode " + mode)
 }
 
-func (x *exec) event(kind, server string) {
+func (x *exec) event(kind, server string) { x.event2(kind, server, false) }
+
+func (x *exec) event2(kind, server string, fromCurrent bool) {
 	x.mu.Lock()
-	x.events = append(x.events, EventObs{At: e2e.Now(), Kind: kind, Server: server})
+	x.events = append(x.events, EventObs{At: e2e.Now(), Kind: kind, Server: server, FromCurrent: fromCurrent})
+	x.mu.Unlock()
+}
+
+// kickHandled reports whether the proxy is done with the kick that a connection to server
+// stamped at failAt: it fired KickedFromServerEvent for that server afterwards, and after
+// that a ServerPostConnectEvent (the fallback join is complete).
+func (x *exec) kickHandled(server string, failAt int64) bool {
+	x.mu.Lock()
+	defer x.mu.Unlock()
+	kickedAt := int64(0)
+	for _, e := range x.events {
+		if kickedAt == 0 && e.Kind == "kicked" && e.Server == server && e.At > failAt {
+			kickedAt = e.At
+		}
+		if kickedAt != 0 && e.Kind == "post-connect" && e.At > kickedAt {
+			return true
+		}
+	}
+	return false
+}
+
+// joinedAndKicked: the latest connection to server sent JoinGame and then kicked.
+func (x *exec) joinedAndKicked(server string) bool {
+	cs := x.b[server].Conns()
+	for i := len(cs) - 1; i >= 0; i-- {
+		st := cs[i].Stamps()
+		if st.JoinSendAt != 0 {
+			return st.FailAt != 0
+		}
+	}
+	return false
+}
+
+// markConnected runs inside the ServerConnectedEvent subscriber: the proxy is handling the
+// JoinGame of the latest connection to server that sent one.
+func (x *exec) markConnected(server string) {
+	cs := x.b[server].Conns()
+	for i := len(cs) - 1; i >= 0; i-- {
+		if cs[i].Stamps().JoinSendAt != 0 {
+			x.mu.Lock()
+			x.connectedSeen[fmt.Sprintf("%s#%d", server, cs[i].N)] = true
+			x.mu.Unlock()
+			return
+		}
+	}
+}
+
+// postConnect runs inside the ServerPostConnectEvent subscriber.
+func (x *exec) postConnect(pl proxy.Player) {
+	if pl.Username() != x.name {
+		return
+	}
+	// The observation only counts if it really shows the moment the proxy fired the event:
+	// the most recent thing this scenario saw must be the ServerConnectedEvent of this very
+	// join, and nothing else may happen until everything has been read (no other request
+	// called, no other event, own connection not closed, client not being closed). Under
+	// load the subscriber's goroutine can be held up for milliseconds while the harness or
+	// other requests move on; what it would read then is some later, possibly transient
+	// state, not the state at ServerPostConnectEvent. Discarded observations are counted.
+	x.mu.Lock()
+	n0 := len(x.events)
+	valid := n0 > 0 && x.events[n0-1].Kind == "connected" && !x.closing
+	x.mu.Unlock()
+	po := PostObs{Lists: map[string][]string{}}
+	if cs := pl.CurrentServer(); cs != nil {
+		po.Cur = cs.Server().ServerInfo().Name()
+	}
+	for _, name := range serverNames {
+		b := x.b[name]
+		var names []string
+		b.Server().Players().Range(func(p proxy.Player) bool {
+			if p.Username() == x.name {
+				names = append(names, p.Username())
+			}
+			return true
+		})
+		if len(names) > 0 {
+			po.Lists[name] = names
+		}
+		for _, bc := range b.Conns() {
+			st := bc.Stamps()
+			x.mu.Lock()
+			seen := x.connectedSeen[fmt.Sprintf("%s#%d", name, bc.N)]
+			x.mu.Unlock()
+			if !seen || st.ProxyCloseAt != 0 {
+				// only connections whose JoinGame the proxy has started to handle
+				// (ServerConnectedEvent seen) count as joined from the proxy's side
+				continue
+			}
+			if st.FailAt != 0 && !bc.Behavior.KickKeepOpen {
+				continue // the fake backend closed this one itself
+			}
+			po.OpenJoined = append(po.OpenJoined, fmt.Sprintf("%s#%d", name, bc.N))
+		}
+	}
+	po.At = e2e.Now()
+	gone := x.c.Kicked() != nil || x.c.EOF()
+	x.mu.Lock()
+	if valid && len(x.events) == n0 && !x.closing && !gone && x.events[n0-1].Server == po.Cur {
+		x.posts = append(x.posts, po)
+	} else {
+		x.postsDiscarded++
+	}
+	x.events = append(x.events, EventObs{At: po.At, Kind: "post-connect", Server: po.Cur})
 	x.mu.Unlock()
 }
 
@@ -275,6 +437,7 @@ func (x *exec) setup() error {
 	}
 	x.h = h
 	x.returned = map[int]bool{}
+	x.connectedSeen = map[string]bool{}
 	x.b = map[string]*e2e.Backend{}
 	x.reqOf = map[string]int{}
 	for _, name := range serverNames {
@@ -292,6 +455,9 @@ func (x *exec) setup() error {
 			}
 			if eff == mKickPlayLate {
 				beh.KickDelay = time.Duration(scr.KickDelayMs) * time.Millisecond
+			}
+			if kickish(eff) && scr.KickKeepOpen {
+				beh.KickKeepOpen = true
 			}
 			if eff == mSlowDial {
 				beh.DialDelay = time.Duration(scr.DialDelayMs) * time.Millisecond
@@ -327,16 +493,46 @@ func (x *exec) setup() error {
 	})
 	event.Subscribe(h.Ev, 0, func(e *proxy.ServerConnectedEvent) {
 		x.event("connected", e.Server().ServerInfo().Name())
+		x.markConnected(e.Server().ServerInfo().Name())
 		if sc.ConnectedSleepUs > 0 {
 			time.Sleep(time.Duration(sc.ConnectedSleepUs) * time.Microsecond)
 		}
 	})
 	event.Subscribe(h.Ev, 0, func(e *proxy.KickedFromServerEvent) {
-		x.event("kicked", e.Server().ServerInfo().Name())
+		kicked := e.Server().ServerInfo().Name()
+		x.event2("kicked", kicked, !e.KickedDuringServerConnect())
 		if sc.KickedSleepUs > 0 {
 			time.Sleep(time.Duration(sc.KickedSleepUs) * time.Microsecond)
 		}
+		if !e.KickedDuringServerConnect() && x.joinedAndKicked(kicked) {
+			x.event2("play-state-kick-by-current-server", kicked, true)
+		}
+		if e.KickedDuringServerConnect() || sc.KickResult == "" || !x.joinedAndKicked(kicked) {
+			// only play-state kicks by a server the player had joined are steered; failed
+			// attempts (which Gate also reports as "not during connect" when the player has
+			// no server at that moment) keep Gate's default handling
+			return
+		}
+
+		switch sc.KickResult {
+		case "redirect-other":
+			for _, name := range serverNames {
+				if name != kicked && healthy(sc.EffMode(name, x.b[name].Dials())) {
+					e.SetResult(&proxy.RedirectPlayerKickResult{Server: x.b[name].Server()})
+					return
+				}
+			}
+		case "redirect-same":
+			if healthy(sc.EffMode(kicked, x.b[kicked].Dials())) {
+				e.SetResult(&proxy.RedirectPlayerKickResult{Server: e.Server()})
+			}
+		case "notify":
+			e.SetResult(&proxy.NotifyKickResult{Message: &component.Text{Content: "c16 notify"}})
+		case "disconnect":
+			e.SetResult(&proxy.DisconnectPlayerKickResult{Reason: &component.Text{Content: "c16 disconnect result"}})
+		}
 	})
+	event.Subscribe(h.Ev, 0, func(e *proxy.ServerPostConnectEvent) { x.postConnect(e.Player()) })
 	return nil
 }
 
@@ -382,10 +578,19 @@ func (x *exec) snapshot(label string, limboOK bool) Snap {
 			st := bc.Stamps()
 			cs := ConnState{Server: name, N: bc.N, Joined: st.JoinSendAt != 0, Closed: bc.EOF()}
 			s.Conns = append(s.Conns, cs)
-			if !cs.Closed && cs.Joined && bc.Behavior.Mode == e2e.KickPlay {
-				// scripted to kick after JoinGame: pending until the kick went out AND the
-				// connection is seen closed (FailAt is stamped before the kick is written)
-				s.Pending = append(s.Pending, fmt.Sprintf("%s#%d is about to kick", name, bc.N))
+			if cs.Joined && bc.Behavior.Mode == e2e.KickPlay {
+				// scripted to kick after JoinGame: pending until the kick went out (FailAt is
+				// stamped before the kick is written) and the proxy is done with it: the
+				// fallback join completed (ServerPostConnectEvent) or the client is gone.
+				// (That the proxy closes the kicked connection is NOT waited for: a kicked
+				// connection left open must show up in the resting state.)
+				if st.FailAt == 0 {
+					if !cs.Closed {
+						s.Pending = append(s.Pending, fmt.Sprintf("%s#%d is about to kick", name, bc.N))
+					}
+				} else if !s.ClientGone && !x.kickHandled(name, st.FailAt) {
+					s.Pending = append(s.Pending, fmt.Sprintf("%s#%d kicked, the proxy's handling of the kick is not finished", name, bc.N))
+				}
 			}
 			if !cs.Closed && !cs.Joined && bc.Behavior.BeforeJoin != nil && st.AnswerAt != 0 {
 				// stalled before JoinGame: pending until it has gone on (JoinGame stamped) or
@@ -439,7 +644,7 @@ func (x *exec) settle(label string, limboOK bool) Snap {
 	}
 }
 
-func (x *exec) issue(q ReqSpec, target string, id int, release <-chan struct{}, out chan<- ReqObs) {
+func (x *exec) issue(q ReqSpec, target string, id int, prepared *preparedHandle, release <-chan struct{}, out chan<- ReqObs) {
 	ro := ReqObs{ID: id, Spec: q, Target: target}
 	rs := x.b[target].Server()
 	ctx0 := context.WithValue(context.Background(), reqKey{}, id)
@@ -458,7 +663,15 @@ func (x *exec) issue(q ReqSpec, target string, id int, release <-chan struct{}, 
 		cancelAt.Store(e2e.Now()) // stamped BEFORE the cancellation becomes visible to the proxy
 		cancel()
 	})
-	req := x.player.CreateConnectionRequest(rs)
+	var req proxy.ConnectionRequest
+	if prepared != nil {
+		req, ro.CurAtCreate = prepared.req, prepared.cur
+	} else {
+		ro.CurAtCreate = x.curName()
+		req = x.player.CreateConnectionRequest(rs)
+	}
+	ro.CurAtCall = x.curName()
+	x.event("call", target)
 	ro.CallAt = e2e.Now()
 	if q.Indication {
 		if req.ConnectWithIndication(ctx) {
@@ -545,12 +758,17 @@ func runScenario(sc Scenario, seed int64) *Observation {
 	}
 	x.c = x.h.NewClient(e2e.ClientOpts{Protocol: proto.Protocol(sc.Proto)})
 	finish := func() *Observation {
+		x.mu.Lock()
+		x.closing = true
+		x.mu.Unlock()
 		o.ClientCloseAt = e2e.Now()
 		x.c.Close()
 		o.Final = x.settle("final", false)
 		o.Conns = x.collectConns()
 		x.mu.Lock()
 		o.Events = append([]EventObs(nil), x.events...)
+		o.Posts = append([]PostObs(nil), x.posts...)
+		o.PostsDiscarded = x.postsDiscarded
 		x.mu.Unlock()
 		return o
 	}
@@ -580,7 +798,15 @@ func runScenario(sc Scenario, seed int64) *Observation {
 		return finish()
 	}
 	prev := o.AfterLogin
-	for _, reqs := range sc.Rounds {
+	x.handles = map[[2]int]preparedHandle{}
+	for ri, reqs := range sc.Rounds {
+		for qi, q := range reqs {
+			if q.Handle == "login" && q.Target != "@probe" {
+				x.handles[[2]int{ri, qi}] = preparedHandle{req: x.player.CreateConnectionRequest(x.b[q.Target].Server()), cur: prev.Cur}
+			}
+		}
+	}
+	for ri, reqs := range sc.Rounds {
 		rd := RoundObs{Before: prev, KeepAlive: "n/a"}
 		release := make(chan struct{})
 		out := make(chan ReqObs, len(reqs))
@@ -590,16 +816,22 @@ func runScenario(sc Scenario, seed int64) *Observation {
 			target string
 		}
 		var pend []pending
-		for _, q := range reqs {
+		for qi, q := range reqs {
 			target := q.Target
 			if target == "@probe" {
 				if target = x.healthyTarget(prev.Cur); target == "" {
 					target = prev.Cur
 				}
 			}
+			var prepared *preparedHandle
+			if h, ok := x.handles[[2]int{ri, qi}]; ok {
+				prepared = &h
+			} else if q.Handle == "round" {
+				prepared = &preparedHandle{req: x.player.CreateConnectionRequest(x.b[target].Server()), cur: prev.Cur}
+			}
 			x.nextReq++
 			pend = append(pend, pending{x.nextReq, q, target})
-			go x.issue(q, target, x.nextReq, release, out)
+			go x.issue(q, target, x.nextReq, prepared, release, out)
 		}
 		close(release)
 		deadline := time.After(40 * time.Second)
@@ -668,7 +900,7 @@ func runScenario(sc Scenario, seed int64) *Observation {
 				rel := make(chan struct{})
 				close(rel)
 				ch := make(chan ReqObs, 1)
-				go x.issue(ReqSpec{Target: t, Indication: true}, t, x.nextReq, rel, ch)
+				go x.issue(ReqSpec{Target: t, Indication: true}, t, x.nextReq, nil, rel, ch)
 				select {
 				case ro := <-ch:
 					rd.Recovery = &ro
@@ -821,7 +1053,18 @@ func account(r *lib.Run, o *Observation, fs []Finding, mu *sync.Mutex, hist, sig
 	}
 	for _, e := range o.Events {
 		r.Count("event_"+e.Kind, 1)
+		if e.Kind == "play-state-kick-by-current-server" {
+			r.Count("kicks_by_the_current_server", 1)
+			kr := sc.KickResult
+			if kr == "" {
+				kr = "default-next-try-server"
+			}
+			r.Count("kicks_by_the_current_server_result_"+kr, 1)
+			r.Distinct(fmt.Sprintf("kick-from-current|%d|%s|%s", sc.Proto, sc.Scripts[e.Server].Mode, kr))
+		}
 	}
+	r.Count("post_connect_snapshots_judged", len(o.Posts))
+	r.Count("post_connect_snapshots_discarded_state_moved_meanwhile", o.PostsDiscarded)
 	if sc.Initial != "" {
 		r.Count("initial_join_on_failing_first_server", 1)
 		if o.AfterLogin.ClientGone {
@@ -854,6 +1097,15 @@ func account(r *lib.Run, o *Observation, fs []Finding, mu *sync.Mutex, hist, sig
 			modes = append(modes, m)
 			if q.Status == stInProgress {
 				r.Count("inprogress_returned", 1)
+			}
+			if q.Spec.Handle != "" {
+				r.Count("requests_with_handle_created_early_"+q.Spec.Handle, 1)
+				if q.CurAtCreate != q.CurAtCall {
+					r.Count("early_handles_used_after_the_player_had_moved", 1)
+					if isSuccess(q.Status) {
+						r.Count("successful_switches_through_a_stale_handle", 1)
+					}
+				}
 			}
 			if q.CancelAt > 0 {
 				r.Count("contexts_cancelled_by_harness", 1)
